@@ -46,6 +46,12 @@ CHECKS = {
  "C14": ("differential monitor over generated project trees: files picked by the command-line collector vs the language server's resolver (read off marker consts in the loaded sources) vs a reference transcription of the documented rule; visibility / cycle / missing-module scenarios through the real `incan --check` with a watchdog",
          "Hundreds (thorough: thousands) of directory layouts x import spellings are resolved by the real code paths in-process; every declaration kind x visibility x import form goes through the CLI. Exploration over scenario classes.",
          "The reference resolver is consulted on layouts where the documented rule is unambiguous (.incn before .incan is documented).", "5/C14"),
+ "C12": ("metamorphic monitor over process instances: the real `incan` commands run in N separate processes (own hash seeds) at different locations / environments / file creation orders; byte equality of exit status, stdout, stderr and the whole generated tree",
+         "12 (thorough: 40) process instances per program over programs that stress every hash-ordered container reaching output (2-6 rust:: imports, several types/traits, multi-file projects, ill-typed programs with several diagnostics from one construct, grammar-generated files). Exploration; an order flip of two elements escapes N instances with probability 2^-(N-1).",
+         "Tracing timestamps are log metadata and are stripped; Incan's own switches are held fixed.", "5/C12"),
+ "C15": ("invariant monitor on the generated project of the real `incan build` (cargo stubbed; a subset compiled for real): TOML validity, package/bin names, pinned-or-path dependencies, declared crate set == crate roots referenced by the generated Rust (+ rust:: imports), refusal of unknown crates",
+         "Hundreds (thorough: thousands) of programs over all combinations of feature triggers and placements, project names and rust:: import sets; the final word on omitted crates is rustc on the really-built subset.",
+         "Crate roots are extracted lexically from the generated Rust; real builds are limited to crates present in the offline registry (serde, serde_json, tokio).", "5/C15"),
 }
 WIP = "check not built yet in this round (work in progress; see DESIGN.md section 5 for the planned monitor)"
 ALL = ["C%02d" % i for i in range(1, 21)]
